@@ -61,6 +61,8 @@ func (o *output) Decode(b *bin.Buffer) error {
 
 func msgID(i int) int64 { return int64(7000 + 4*i) }
 
+var errCallerCause = errors.New("sibling task failed")
+
 func class(err error, ctx context.Context) string {
 	var rl *rpc.RetryLimitReachedErr
 	switch {
@@ -166,7 +168,13 @@ func newWorld(r *rec, s *sched.S, maxRetries, maxReq int) *world {
 }
 
 func (w *world) startDo(i int) {
-	ctx, cancel := context.WithCancel(context.Background())
+	// callers are cancelled in the two ways the standard library offers: plainly, or with a cause of their own
+	// (errgroup, WithCancelCause); ctx.Err() is context.Canceled either way
+	ctx, cancelCause := context.WithCancelCause(context.Background())
+	cancel := func() { cancelCause(nil) }
+	if i%2 == 0 {
+		cancel = func() { cancelCause(errCallerCause) }
+	}
 	w.ctxs[i], w.cancels[i] = ctx, cancel
 	w.r.emit(tr.M{"ev": "DoStart", "i": i})
 	run := func() {
